@@ -258,6 +258,17 @@ def main():
     rng = random.Random('%s/%d' % (pid, seed))
     deadline = time.time() + prop.time_limit[tier]
     exhaustive_done = False
+    cov = None
+    anchored_cov = {}
+    if tier == 'thorough' and testtools is not None:
+        try:   # line coverage of the files the property is anchored in (evidence only)
+            import coverage
+            anchors = [json.loads(l) for l in open(os.path.join(core.VERIF, 'properties.jsonl'))]
+            files = [os.path.join(core.REPO, f) for a in anchors if a['id'] == pid for f in a['anchors']['files']]
+            cov = coverage.Coverage(data_file=None, include=files)
+            cov.start()
+        except Exception:
+            cov = None
     try:
         if testtools is None:
             broken.append(('import', 'testtools cannot be imported from the tree: ' + import_error))
@@ -301,6 +312,14 @@ def main():
                     n += 500
     except RuntimeError as e:
         infra(str(e))
+    if cov is not None:
+        try:
+            cov.stop()
+            for f in files:
+                _, stmts, _, missing, _ = cov.analysis2(f)
+                anchored_cov[os.path.relpath(f, core.REPO)] = {'statements': len(stmts), 'executed': len(stmts) - len(missing)}
+        except Exception as e:
+            anchored_cov = {'error': repr(e)}
 
     # 6. decision
     violation = None
@@ -343,6 +362,7 @@ def main():
             'checker_cmd': 'cd lean && lake build TTV.Props.%s && lake env lean .lake/audit_%s.lean   # kernel check + #print axioms of every theorem' % (pid, pid),
             'trusted_base': tb,
             'leanchecker': leanchecker,
+            'anchored_line_coverage': anchored_cov,
             'theorems': sorted(n for n in axioms if core.is_property_theorem(n.split('.')[-1])),
             'helper_lemmas_audited': len([n for n in axioms if not core.is_property_theorem(n.split('.')[-1])]),
             'evaluations': run.evaluations, 'distinct_nontrivial': len(run.nontrivial),
